@@ -275,6 +275,31 @@ type Case struct {
 	counts   map[string]int64
 	distinct []uint64
 	src      string
+	probe    *Probe
+}
+
+// Probe collects the keys and messages of violations reported by a dry run.
+type Probe struct {
+	Keys []string
+	Msgs []string
+}
+
+// Has reports whether a violation with the given key was reported.
+func (p *Probe) Has(key string) bool {
+	for _, k := range p.Keys {
+		if k == key {
+			return true
+		}
+	}
+	return false
+}
+
+// Dry returns a case with the same identity whose observations are discarded
+// and whose violations are only recorded in the returned Probe: used to
+// re-evaluate an oracle while shrinking a witness.
+func (k *Case) Dry() (*Case, *Probe) {
+	p := &Probe{}
+	return &Case{C: k.C, Sub: k.Sub, Index: k.Index, R: nil, counts: map[string]int64{}, probe: p}, p
 }
 
 // Count adds to a counter (merged after the case finishes).
@@ -290,6 +315,9 @@ func (k *Case) SetSource(s string) { k.src = s }
 
 // Sample offers an actual case for the evidence samples (a few per class kept).
 func (k *Case) Sample(class string, v interface{}) {
+	if k.probe != nil {
+		return
+	}
 	c := k.C
 	c.mu.Lock()
 	if c.sampleKeys[class] < 2 && len(c.samples) < 12 {
@@ -302,6 +330,11 @@ func (k *Case) Sample(class string, v interface{}) {
 // Violation records a witness. key, when non-empty, identifies the failing
 // shape for the known-findings file.
 func (k *Case) Violation(key, msg string, details map[string]interface{}) {
+	if k.probe != nil {
+		k.probe.Keys = append(k.probe.Keys, key)
+		k.probe.Msgs = append(k.probe.Msgs, msg)
+		return
+	}
 	c := k.C
 	c.mu.Lock()
 	defer c.mu.Unlock()
